@@ -678,6 +678,14 @@ func (c *ctx) zkPerturbJobs(d *zkDef, t, t2, t3 zkTriple) (jobs []*zkJob) {
 			}
 		}
 	}
+	// oversized integers (far beyond any honest response) must be refused; pedersen.Verify / zkfac do so before exponentiating
+	for i := 0; i < len(d.respK); i++ {
+		if d.respK[i] == 'i' {
+			nt := t
+			nt.resp = replaceAt(t.resp, i, sx.Big(pow2(20000)))
+			add(fmt.Sprintf("resp[%d]=oversized", i), nt)
+		}
+	}
 	pv, pn := zkPrefixVariants()
 	for i, p := range pv {
 		nt := t
